@@ -149,7 +149,22 @@ def body(case, ctx):
                             block = b.handles[(rel[1],)]
                             content = list(block.decomposed_operations())
                             if content and min(float(o.start_time) for o in content) >= float(block.start_time) - 1e-9:
-                                pairs.append((i, b.passed[(i,)], content))
+                                pairs.append((i, [b.passed[(i,)]], content))
+                    # ... and blocks that follow a block (implicitly, or through the relation assigned to them)
+                    tops = {id(b.handles[(j,)]): j for j, x in enumerate(program["top"]["items"]) if P.is_sub(x)}
+                    for i, it in enumerate(program["top"]["items"]):
+                        if not P.is_sub(it):
+                            continue
+                        mine = b.handles[(i,)]
+                        link = mine.relation_link
+                        j = tops.get(id(link.reference_node)) if link.has_reference else None
+                        if j is None or link.relation_type.name != "FOLLOWED_BY":
+                            continue
+                        block = b.handles[(j,)]
+                        content, followers = list(block.decomposed_operations()), list(mine.decomposed_operations())
+                        if (content and followers and min(float(o.start_time) for o in content) >= float(block.start_time) - 1e-9
+                                and min(float(o.start_time) for o in followers) >= float(mine.start_time) - 1e-9):
+                            pairs.append((i, followers, content))
                 ops3 = None
                 with ctx.lib("flatten + list"):
                     target = target.flatten()
@@ -158,14 +173,14 @@ def body(case, ctx):
                     return
                 check_circuit(ctx, target, ops3, "flattened", facts, None)
                 listed = {id(o) for o in ops3}
-                for i, follower, content in pairs:
-                    if id(follower) not in listed or any(id(o) not in listed for o in content):
+                for i, followers, content in pairs:
+                    if any(id(o) not in listed for o in followers + content):
                         continue          # (objects replaced: nothing to compare by identity)
                     with ctx.lib("follower after flatten"):
-                        mine, latest = float(follower.start_time), max(float(o.end_time) for o in content)
+                        mine, latest = min(float(o.start_time) for o in followers), max(float(o.end_time) for o in content)
                     if mine < latest - 1e-9:
-                        ctx.fail("follower-overlaps-block", f"flattened: item {i} ({type(follower).__name__}) was added FOLLOWED_BY a block "
-                                 f"whose operations end at {latest} but starts at {mine}", dict(facts, what="flattened"))
+                        ctx.fail("follower-overlaps-block", f"flattened: item {i} ({type(followers[0]).__name__}{' ...' if len(followers) > 1 else ''}) "
+                                 f"was scheduled FOLLOWED_BY a block whose operations end at {latest} but starts at {mine}", dict(facts, what="flattened"))
             dreg = program.get("dreg", {})
             changed = False
             with ctx.lib("change registry durations"):
